@@ -47,7 +47,7 @@ GROUPS['C08'] = [{
     },
 }]
 
-CACHE = os.path.join(ROOT, '.cache')
+CACHE = os.environ.get('VERIF_CACHE') or os.path.join(ROOT, '.cache')
 
 
 def _kani_version():
